@@ -1595,6 +1595,59 @@ fn part_typed_values(rep: &Report) {
     acc.flush(rep);
 }
 
+/// the hash-from-hashes routine inside fast_forward_singleton (curry_and_treehash, private): a
+/// singleton spend whose three coins are built from the DEFINITIONAL tree hash of its curried
+/// puzzle must pass every hash comparison of that function, for any launcher id, launcher
+/// puzzle hash and inner puzzle
+fn part_ff_curried_hash(rep: &Report) {
+    use chia_consensus::fast_forward::fast_forward_singleton;
+    use chia_protocol::{Bytes32, Coin};
+    let module = Sx::parse(&chia_puzzles::SINGLETON_TOP_LAYER_V1_1).expect("singleton top layer parses");
+    let mod_hash: H = chia_puzzles::SINGLETON_TOP_LAYER_V1_1_HASH;
+    let mut acc = Acc::default();
+    if module.tree_hash() != mod_hash {
+        rep.machinery_error("own tree hash of the chia-puzzles singleton module differs from the published constant");
+        return;
+    }
+    let lids: [H; 3] = [[0xa1; 32], [0; 32], [0xff; 32]];
+    let lphs: [H; 4] = [chia_puzzles::SINGLETON_LAUNCHER_HASH, [0x4c; 32], [0; 32], mod_hash];
+    let inners: Vec<Sx> = vec![Sx::int(1), Sx::cons(Sx::int(1), Sx::int(5)), Sx::list(&[Sx::atom(&[2]), Sx::int(2), Sx::int(3)]), Sx::nil()];
+    let coin_id = |p: &H, ph: &H, am: u64| sha256(&[p, ph, &enc_u64(am)]);
+    for lid in &lids {
+        for lph in &lphs {
+            for inner in &inners {
+                for (amount, pamt) in [(1u64, 1u64), (3, (1 << 63) + 1)] {
+                    acc.evals += 1;
+                    let strukt = Sx::cons(Sx::atom(&mod_hash), Sx::cons(Sx::atom(lid), Sx::atom(lph)));
+                    let puzzle = curried_reference(&module, &[&strukt, inner]);
+                    let ph = puzzle.tree_hash();
+                    let inner_hash = inner.tree_hash();
+                    let pp: H = [0xc1; 32];
+                    let parent_id = coin_id(&pp, &ph, pamt);
+                    let solution = Sx::list(&[Sx::list(&[Sx::atom(&pp), Sx::atom(&inner_hash), Sx::Atom(enc_u64(pamt))]), Sx::Atom(enc_u64(amount)), Sx::nil()]);
+                    let mk = |p: &H, am: u64| Coin::new(Bytes32::new(*p), Bytes32::new(ph), am);
+                    let coin = mk(&parent_id, amount);
+                    let new_parent = mk(&[0xab; 32], 3);
+                    let new_coin = mk(&coin_id(&[0xab; 32], &ph, 3), amount);
+                    let r = catch(|| {
+                        let mut a = Allocator::new();
+                        let (p, s) = (puzzle.to_node(&mut a), solution.to_node(&mut a));
+                        fast_forward_singleton(&mut a, p, s, &coin, &new_coin, &new_parent).map(|_| ()).map_err(|e| format!("{e:?}"))
+                    });
+                    let case = json!({"kind": "ff", "launcher_id": hx(lid), "launcher_puzzle_hash": hx(lph), "inner": hex::encode(inner.serialize()), "amount": amount, "parent_amount": pamt});
+                    match r {
+                        Ok(Ok(())) => acc.ok("ff/hash-from-hashes agrees"),
+                        Ok(Err(e)) => acc.bad("C17/fast_forward/curried-hash-from-hashes".into(), case, format!("a singleton spend whose coin, parent and rebase target carry the definitional tree hash {} of its curried puzzle (launcher id {}, launcher puzzle hash {}, inner puzzle {:?}) is refused with {e}: the puzzle hash fast_forward_singleton derives from hashes alone is not the tree hash of the curried puzzle", hx(&ph), hx(lid), hx(lph), inner)),
+                        Err(p) => acc.bad("C17/fast_forward/panic".into(), case, p),
+                    }
+                }
+            }
+        }
+    }
+    rep.sample(json!({"ff": "singleton_top_layer_v1_1 curried with (mod_hash . (launcher_id . 4c..4c)) and inner puzzle 1: fast_forward_singleton must accept coins built from the puzzle's own tree hash"}));
+    acc.flush(rep);
+}
+
 fn part_curry(rep: &Report) {
     let vals = curry_values(rep.tier);
     let nv = vals.len() as u64;
@@ -1664,7 +1717,7 @@ fn run(rep: &Report) {
     let max_extras: usize = std::env::var("C17_EXTRAS").ok().and_then(|s| s.parse().ok()).unwrap_or(t.pick(2, 3));
 
     rep.set_rule(&format!(
-        "E: the 24 precomputed constants; every leaf of a {}-element alphabet (contents nil, 00..1a, 7f, 80, ff, 2..5-byte integers around the small-atom limit, strings of 31..1000 bytes; constructors nil/one/new_atom/new_small_number/new_number/new_substr/new_concat, i.e. both the small-integer and the heap representation of the same bytes) as a root and in every ordered pair (x . y); every small-integer atom in [0, {small_end}); every pair table p_i = (c_l . c_r), c in leaves + earlier pairs (all DAGs incl. unshared trees, duplicated equal pairs and unreachable pairs) for (pairs, leaves, serialisations) in {tables:?}, root = last pair; 10^5-deep and 10^5-long lists, perfect DAGs of depth 17/{}, a Fibonacci DAG; typed values through ToTreeHash / TreeHasher and through ToClvm<Allocator> (12 primitive integer types and BigInt over 44 boundary values incl. 0 and +-2^k, BigInt beyond 128 bits, byte strings, tuples); currying of every (program, args) over {} values for 0..4 arguments and over 4 values for 5..6; for (pairs, leaves, spends) in {blocks:?} every table x every list of that many spends whose puzzle reveals (f (q . (() . p_i))) carry the table's pairs, as a plain and as a back-reference generator, through run_block_generator (hashes computed by the CLVM ROM), run_block_generator2, additions_and_removals, get_coinspends_for_trusted_block and get_coinspends_with_conditions_for_trusted_block (one TreeCache across all puzzle reveals; puzzle hash and coin id of every spend). H: for (pairs, leaves) in {graphs:?} the COMPLETE state graph of every table under visit_tree(p_i)/tree_hash_cached(p_i) on one shared TreeCache (BFS until no new cache state appears: histories of any length); for (pairs, leaves, length) in {seqs:?} every table x every operation sequence of that length; the complete state graph (depth bound {bfs_depth}, fixpoint reported) of visit_tree/tree_hash_cached on the roots {{atom, p0..p4, e1..e{max_extras}}} of a fixed DAG plus 'allocate the next pair e_j' (pairs created after the cache was used; p5 never visited directly) plus at most {max_inserts} direct TreeCache::insert(pair root or one of the three atoms, definition's hash) priming call(s) per history. States are deduplicated on (pairs allocated, pairs[], hashes[]) read through hook H2 (exact, no hashing). Oracle on every transition: returned hash = definition, and TreeCache::get of every pair is None or the definition's hash. distinct_nontrivial counts leaves, big structures, curry cases and fixed-DAG states only (tables, table-graph states and sequences are counted in the extras)",
+        "E: the 24 precomputed constants; every leaf of a {}-element alphabet (contents nil, 00..1a, 7f, 80, ff, 2..5-byte integers around the small-atom limit, strings of 31..1000 bytes; constructors nil/one/new_atom/new_small_number/new_number/new_substr/new_concat, i.e. both the small-integer and the heap representation of the same bytes) as a root and in every ordered pair (x . y); every small-integer atom in [0, {small_end}); every pair table p_i = (c_l . c_r), c in leaves + earlier pairs (all DAGs incl. unshared trees, duplicated equal pairs and unreachable pairs) for (pairs, leaves, serialisations) in {tables:?}, root = last pair; 10^5-deep and 10^5-long lists, perfect DAGs of depth 17/{}, a Fibonacci DAG; the hash-from-hashes routine of fast_forward_singleton on 96 singleton spends (3 launcher ids x 4 launcher puzzle hashes x 4 inner puzzles x 2 amounts) built from the definitional hash; typed values through ToTreeHash / TreeHasher and through ToClvm<Allocator> (12 primitive integer types and BigInt over 44 boundary values incl. 0 and +-2^k, BigInt beyond 128 bits, byte strings, tuples); currying of every (program, args) over {} values for 0..4 arguments and over 4 values for 5..6; for (pairs, leaves, spends) in {blocks:?} every table x every list of that many spends whose puzzle reveals (f (q . (() . p_i))) carry the table's pairs, as a plain and as a back-reference generator, through run_block_generator (hashes computed by the CLVM ROM), run_block_generator2, additions_and_removals, get_coinspends_for_trusted_block and get_coinspends_with_conditions_for_trusted_block (one TreeCache across all puzzle reveals; puzzle hash and coin id of every spend). H: for (pairs, leaves) in {graphs:?} the COMPLETE state graph of every table under visit_tree(p_i)/tree_hash_cached(p_i) on one shared TreeCache (BFS until no new cache state appears: histories of any length); for (pairs, leaves, length) in {seqs:?} every table x every operation sequence of that length; the complete state graph (depth bound {bfs_depth}, fixpoint reported) of visit_tree/tree_hash_cached on the roots {{atom, p0..p4, e1..e{max_extras}}} of a fixed DAG plus 'allocate the next pair e_j' (pairs created after the cache was used; p5 never visited directly) plus at most {max_inserts} direct TreeCache::insert(pair root or one of the three atoms, definition's hash) priming call(s) per history. States are deduplicated on (pairs allocated, pairs[], hashes[]) read through hook H2 (exact, no hashing). Oracle on every transition: returned hash = definition, and TreeCache::get of every pair is None or the definition's hash. distinct_nontrivial counts leaves, big structures, curry cases and fixed-DAG states only (tables, table-graph states and sequences are counted in the extras)",
         leaf_alphabet().len(),
         t.pick(12, 20),
         curry_values(t).len(),
@@ -1702,6 +1755,8 @@ fn run(rep: &Report) {
     lap("curry");
     part_typed_values(rep);
     lap("typed values");
+    part_ff_curried_hash(rep);
+    lap("fast-forward curried hash");
     for (n, k, sp) in &blocks {
         part_blocks(rep, *n, *k, *sp);
         lap(&format!("blocks n={n} k={k} spends={sp}"));
@@ -1813,6 +1868,28 @@ fn replay(case: &Value) -> String {
             let p = &vals[case["program"].as_u64().unwrap() as usize];
             let args: Vec<&Sx> = case["args"].as_array().unwrap().iter().map(|i| &vals[i.as_u64().unwrap() as usize]).collect();
             format!("program {p:?} args {args:?}\ncurried: {:?}\n{}", curried_reference(p, &args), describe(check_curry(p, &args, args.len() <= 4)))
+        }
+        "ff" => {
+            use chia_consensus::fast_forward::fast_forward_singleton;
+            use chia_protocol::{Bytes32, Coin};
+            let h32 = |k: &str| -> H { hex::decode(case[k].as_str().unwrap()).unwrap().try_into().unwrap() };
+            let (lid, lph) = (h32("launcher_id"), h32("launcher_puzzle_hash"));
+            let inner = Sx::parse(&hex::decode(case["inner"].as_str().unwrap()).unwrap()).unwrap();
+            let (amount, pamt) = (case["amount"].as_u64().unwrap(), case["parent_amount"].as_u64().unwrap());
+            let module = Sx::parse(&chia_puzzles::SINGLETON_TOP_LAYER_V1_1).unwrap();
+            let mod_hash: H = chia_puzzles::SINGLETON_TOP_LAYER_V1_1_HASH;
+            let strukt = Sx::cons(Sx::atom(&mod_hash), Sx::cons(Sx::atom(&lid), Sx::atom(&lph)));
+            let puzzle = curried_reference(&module, &[&strukt, &inner]);
+            let ph = puzzle.tree_hash();
+            let coin_id = |p: &H, am: u64| sha256(&[p, &ph, &enc_u64(am)]);
+            let pp: H = [0xc1; 32];
+            let solution = Sx::list(&[Sx::list(&[Sx::atom(&pp), Sx::atom(&inner.tree_hash()), Sx::Atom(enc_u64(pamt))]), Sx::Atom(enc_u64(amount)), Sx::nil()]);
+            let mk = |p: &H, am: u64| Coin::new(Bytes32::new(*p), Bytes32::new(ph), am);
+            let (coin, new_parent, new_coin) = (mk(&coin_id(&pp, pamt), amount), mk(&[0xab; 32], 3), mk(&coin_id(&[0xab; 32], 3), amount));
+            let mut a = Allocator::new();
+            let (p, so) = (puzzle.to_node(&mut a), solution.to_node(&mut a));
+            let r = fast_forward_singleton(&mut a, p, so, &coin, &new_coin, &new_parent).map(|_| ());
+            format!("definitional puzzle hash {}\nfast_forward_singleton on coins built from it: {r:?}", hx(&ph))
         }
         "typed" => {
             let ty = case["type"].as_str().unwrap_or("");
